@@ -331,13 +331,13 @@ def _nonempty_states(cfg, r):
 
 def run(prog, rep, tier, snap):
     rep.rule("R20.1", "comparator is a strict order applied symmetrically", 5)
-    r20_1(prog, rep)
+    rep.call(r20_1, prog, rep)
     rep.rule("R20.2", "template bindings and entry points", 6)
-    r20_2(prog, rep)
+    rep.call(r20_2, prog, rep)
     rep.rule("R20.3", "stability polarity of the binary searches in the sort template", 20)
-    r20_3(prog, rep)
+    rep.call(r20_3, prog, rep)
     rep.rule("R20.4", "whole-block accesses only while a whole A block exists", 8)
-    r20_4(prog, rep)
+    rep.call(r20_4, prog, rep)
     rep.rule("R08.3", "sentinels wrap to zero: all-day sorts before timed (shared with C08)", 4)
-    c08.r08_3(prog, rep)
+    rep.call(c08.r08_3, prog, rep)
 READY = True
